@@ -32,11 +32,20 @@ def _ob(name, defs, desc, flags=(ONCE, ONCE), **kw):
 
 def obligations(tier):
     obs = [
-        _ob("timer", ["C45_TIMER"], "timer"),
-        _ob("noact_nb", ["C45_POLL_READY=1"], "no actions", flags=(NONBLOCK, ONCE)),
-        _ob("add", ["C45_ACT_ADD"], "callbacks may register a watcher"),
-        _ob("evcb", ["C45_EVCB_ACTS"], "event callback frees/adds watchers"),
-        _ob("free_self", ["C45_ACT_SELF"], "watcher callbacks may free themselves"),
-        _ob("free_other", ["C45_ACT_OTHER"], "watcher callbacks may free another watcher"),
+        _ob("timer", ["C45_TIMER"], "2 prepare + 2 check watchers, a 1.25 s timer, 2 blocking iterations: once per iteration, phase order, reported timeout == time to the next timer == what dispatch gets"),
+        _ob("noact_nb", ["C45_POLL_READY=1"], "non-blocking then blocking iteration, fd readable: iterations with and without callbacks", flags=(NONBLOCK, ONCE)),
+        _ob("add", ["C45_ACT_ADD"], "watcher callbacks may register a prepare/check watcher (<=2 actions, solver-chosen where)"),
+        _ob("evcb", ["C45_EVCB_ACTS"], "the event callback frees any watcher / registers one"),
+        _ob("free_other", ["C45_ACT_OTHER"], "watcher callbacks may free any OTHER watcher (incl. the one due next)"),
+        _ob("free_self", ["C45_ACT_SELF"], "watcher callbacks may free THEMSELVES (fails without fixes/C45-watcher-free-in-callback.diff: use after free in event_base_loop)"),
+        _ob("any", ["C45_ACT_SELF", "C45_ACT_OTHER", "C45_ACT_ADD", "C45_EVCB_ACTS"], "all actions from all callbacks, <=2 per run", flags=(NONBLOCK, ONCE)),
+        _ob("free_base", ["C45_ACT_OTHER", "C45_FREE_BASE"], "event_base_free releases the remaining watchers", unwind=10),
     ]
+    if tier != "quick":
+        big = ["C45_NP0=3", "C45_NC0=2", "C45_NLOOPS=3", "C45_MAXACT=3"]
+        obs += [
+            _ob("any_big", ["C45_ACT_SELF", "C45_ACT_OTHER", "C45_ACT_ADD", "C45_EVCB_ACTS"] + big, "3 prepare + 2 check watchers, 3 loop calls, <=3 actions", flags=(ONCE, NONBLOCK, ONCE), unwind=10, timeout=2400, mem_gb=8),
+            _ob("free_self_big", ["C45_ACT_SELF"] + big, "self-free, 3+2 watchers, 3 loop calls", flags=(ONCE, ONCE, ONCE), unwind=10, timeout=2400, mem_gb=8),
+            _ob("any_ndebug", ["C45_ACT_SELF", "C45_ACT_OTHER", "C45_ACT_ADD", "C45_EVCB_ACTS"], "as 'any', NDEBUG build (as shipped)", ndebug=True),
+        ]
     return obs
